@@ -6,7 +6,7 @@ THEOREMS = ['Pylx.C02.C02_core', 'Pylx.C02.C02_core_run', 'Pylx.C02.C02_core_ok'
 PROOF_MODULES = ['C02']
 RULE = ('DOC: the same derivation through docgen (unparse, tree_of, WF) and through the Lean grammar Pylx.Doc (unparse, treeOf, WF, and shapeOf(parse(unparse d)) = treeOf d evaluated by the driver); PARSE strict on documents derived from the document grammar (text, groups, macro calls with every mix of star / bracket / '
         'mandatory arguments as groups or single tokens, environments with arguments, the four math delimiters, comments, specials, '
-        'paragraph breaks, verbatim), random derivations of unbounded depth under the default context, a fixed custom context and '
+        'paragraph breaks, verbatim; also with blanks, newlines or a comment line between two arguments of a call), random derivations of unbounded depth under the default context, a fixed custom context and '
         'randomly generated contexts with every signature over {m,o,s,t<c>,r<c1c2>,d<c1c2>,v} with and without unknown-macro fallback; '
         'oracle: the structure projection of the returned tree (kinds, names, delimiters, argument presence, nesting, text) equals the '
         'structure the document was generated from; model vs implementation: full tree dump; sig = set of constructs in the document')
@@ -20,8 +20,57 @@ def cases(tier, rng):
     and as a DOC case (the Lean grammar vs docgen: unparse, treeOf, WF, and model parse of the Lean unparse vs Lean treeOf)"""
     for c in _parse_cases(tier, rng):
         yield c
+        if c.get('fixed'):
+            continue
         d = dict(c); d['k'] = 'doc'
         yield d
+        # the same derivation with whitespace / a comment line written between two arguments of a call (the Lean grammar
+        # has no such form: PARSE correspondence and the structure oracle only)
+        # the same derivation with bracket characters as text at the start of brace groups (`[{]}]`, `{[a}`): inside braces
+        # a bracket is a character, whatever encloses the group (PARSE correspondence and structure oracle only)
+        d3, nb = bracketize(rng, _doc(c['doc']))
+        if nb:
+            e = dict(c); e['doc'] = d3; e['s'] = docgen.unparse(d3); e['bracketed'] = nb
+            yield e
+        import random as _random
+        seed = rng.getrandbits(48)
+        s2, n, ncb = docgen.unparse_spaced(_random.Random(seed), _doc(c['doc']), _cg(c))
+        if n:
+            e = dict(c); e['s'] = s2; e['spaced'] = n
+            if ncb:
+                # the same source with a blank instead of each comment line in front of a bracket value (known finding F34)
+                e['s_blank'] = docgen.unparse_spaced(_random.Random(seed), _doc(c['doc']), _cg(c), nocomment=True)[0]
+            yield e
+
+def bracketize(rng, items):
+    cnt = [0]
+    def arg(a):
+        if a[0] in ('br', 'grp'):
+            return (a[0], go(a[1]))
+        if a[0] == 'del':
+            return (a[0], a[1], a[2], go(a[3]))
+        return a
+    def go(its):
+        out = []
+        for it in its:
+            k = it[0]
+            if k == 'G':
+                body = go(it[1])
+                if body and body[0][0] == 'T' and rng.random() < 0.5:
+                    body = [('T', rng.choice(['[', ']', '][', '[]']) + body[0][1])] + body[1:]
+                    cnt[0] += 1
+                it = ('G', body)
+            elif k == 'F':
+                it = ('F', it[1], go(it[2]))
+            elif k == 'M':
+                it = ('M', it[1], it[2], [arg(a) for a in it[3]])
+            elif k == 'E':
+                it = ('E', it[1], [arg(a) for a in it[2]], go(it[3]))
+            elif k == 'S':
+                it = ('S', it[1], [arg(a) for a in it[2]])
+            out.append(it)
+        return out
+    return go(items), cnt[0]
 
 def gen_core(rng, depth=0):
     """derivations of the proved fragment Doc.Core: text, brace groups, comments with newline + indentation, nested"""
@@ -36,7 +85,25 @@ def gen_core(rng, depth=0):
             items.append(('C', ''.join(rng.choice('ab {}$\\%') for _ in range(rng.randint(0, 4))), rng.choice(['\n', '\n  ', '\n\t'])))
     return items
 
+def _fixed_default_docs():
+    """facts the property states in words about the default context: no optional argument after whitespace for the
+    line-break macro (but directly behind it, and a star); blanks are allowed in front of other optional arguments"""
+    A = ('absent',)
+    lb = lambda post, *args: ('M', '\\', post, list(args))
+    return [
+        [('T', 'a'), lb('', A, A), ('W', ' '), ('T', '[b]c')],
+        [('T', 'a'), lb('', A, A), ('W', '\n'), ('T', '[1cm]')],
+        [('T', 'a'), lb('', A, ('br', [('T', '1cm')])), ('T', 'c')],
+        [('T', 'a'), lb('', ('star',), ('br', [('T', '1cm')])), ('T', 'c')],
+        [('T', 'a'), lb('', ('star',), A), ('W', ' '), ('T', '[b]')],
+        [('M', 'sqrt', ' ', [('br', [('T', '3')]), ('grp', [('T', 'x')])])],
+        [('M', 'item', ' ', [('br', [('T', 'x')])]), ('T', 'b')],
+        [('M', 'item', ' ', [A]), ('T', 'b')],
+    ]
+
 def _parse_cases(tier, rng):
+    for d in _fixed_default_docs():
+        yield {'tol': False, 'ctx': 'default', 's': docgen.unparse(d), 'doc': d, 'cg': 'default', 'fixed': True}
     n = 2500 if tier == 'quick' else 40000
     for i in range(n // 8):
         d = gen_core(rng)
@@ -87,6 +154,15 @@ def run_doc(c):
     doc = _doc(c['doc'])
     out = 'u=%s t=[%s] wf=T p=agree' % (show_str(docgen.unparse(doc)), docwire.canon_list(docgen.tree_of(doc, cg)))
     return {'out': out, 'fail': None, 'sig': 'doc'}
+
+def known_match(match, case, fail):
+    """F34: a comment line between a call (or an earlier argument) and an optional bracket argument makes the bracket
+    unrecognised.  Suppressed only if the same document with a blank in place of each such comment line parses to the
+    expected structure, i.e. the comment line is the only cause."""
+    if not case.get('s_blank') or fail.get('kind') not in ('structure-differs', 'well-formed-document-rejected'):
+        return False
+    d = dict(case); d['s'] = case['s_blank']; d.pop('s_blank')
+    return run_impl(d)['fail'] is None
 
 def run_impl(c):
     if c.get('k') == 'doc':
